@@ -368,10 +368,11 @@ Section Lexer.
   (* Everything the proofs assume about str.isspace / isalpha / isnumeric, per character:
      whitespace is not significant, not alphabetic, not numeric; ASCII letters are alphabetic
      and every alphabetic significant character is an identifier character (the letters
-     and μ); ASCII digits are numeric; '.' is not. *)
+     and μ); identifier-start characters are not numeric; ASCII digits are numeric; '.' is not. *)
   Definition class_ok_b (c : N) : bool :=
     implb (isspace c) (negb (sig_char c) && negb (isalpha c) && negb (isnumeric c))
     && implb (is_letter c) (isalpha c)
+    && implb (ident_start c) (negb (isnumeric c))
     && implb (sig_char c && isalpha c) (ident_char c)
     && implb (is_digit c) (isnumeric c)
     && implb (c =? ch_dot)%N (negb (isnumeric c)).
@@ -415,6 +416,10 @@ Definition ka_tokenise (isspace isalpha isnumeric : N -> bool) : text -> lres (l
 Definition ka_read_token (isalpha isnumeric : N -> bool) : text -> rtok :=
   read_token isalpha isnumeric gen_ctoks gen_atoks.
 
+(* the hypothesis of the C11 theorems on the three external character classes *)
+Definition classes_ok (isspace isalpha isnumeric : N -> bool) : Prop :=
+  forall c, class_ok_b isspace isalpha isnumeric gen_ctoks c = true.
+
 (* ---------------------------------------------------------------- rendering (kernel lane) *)
 Open Scope string_scope.
 Definition show_lit (l : lit) : string :=
@@ -450,8 +455,28 @@ Definition show_lres (r : lres (list token)) : string :=
   | LErr e i => "E " ++ show_lexerr e ++ " " ++ show_nat i
   end.
 
+(* compact form for the harness (long outputs are slow to print): E<U|B|S|H|F> index *)
+Definition show_lres_short (r : lres (list token)) : string :=
+  match r with
+  | LOk ts => "K " ++ String.concat " " (map show_token ts)
+  | LErr e i => "E " ++ match e with
+                        | UnknownTokenError => "U" | BadNumberError => "B"
+                        | UnclosedStringError => "S" | UnclosedInstantError => "H"
+                        | LexOutOfFuel => "F"
+                        end ++ " " ++ show_nat i
+  end.
+
 (* class tables supplied by the harness: membership in an explicit list of code points *)
 Definition in_table (l : list N) (c : N) : bool := existsb (N.eqb c) l.
+
+(* a concrete triple of character classes (Latin-1 whitespace; letters, μ, é alphabetic;
+   digits and ² numeric), used as a witness that [classes_ok] is satisfiable and to run the
+   examples of Properties/C11.v *)
+Definition w_space : N -> bool := in_table [9; 10; 11; 12; 13; 28; 29; 30; 31; 32; 133; 160]%N.
+Definition w_alpha (c : N) : bool := is_letter c || (c =? 956)%N || (c =? 233)%N.
+Definition w_numeric (c : N) : bool := is_digit c || (c =? 178)%N.
+Definition ex_lex (s : string) : string :=
+  show_lres (ka_tokenise w_space w_alpha w_numeric (utf8_of_string s)).
 
 (* bijective base-k numeration of all strings over an alphabet (exhaustive slices):
    0 -> "", 1..k -> the one-letter strings, ... *)
